@@ -534,12 +534,18 @@ Proof.
   rewrite (chunk_cmp_antisym x y). destruct (chunk_cmp x y); cbn [CompOpp]; auto.
 Qed.
 
+Lemma key_cmp_antisym a b : key_cmp b a = CompOpp (key_cmp a b).
+Proof.
+  unfold key_cmp. rewrite (chunks_cmp_antisym (natkey a) (natkey b)).
+  destruct (chunks_cmp (natkey a) (natkey b)); cbn [CompOpp]; try reflexivity. apply text_cmp_antisym.
+Qed.
+
 Lemma failure_leb_total f g : failure_leb f g = false -> failure_leb g f = true.
 Proof.
   unfold failure_leb, failure_cmp. destruct f as [[[i n] e] a], g as [[[j m] e'] a'].
-  rewrite (Nat.compare_antisym i j). rewrite (chunks_cmp_antisym (natkey n) (natkey m)).
+  rewrite (Nat.compare_antisym i j). rewrite (key_cmp_antisym n m).
   destruct (Nat.compare i j); cbn [CompOpp]; try discriminate; try reflexivity.
-  destruct (chunks_cmp (natkey n) (natkey m)); cbn [CompOpp]; try discriminate; reflexivity.
+  destruct (key_cmp n m); cbn [CompOpp]; try discriminate; reflexivity.
 Qed.
 
 Lemma report_perm failed : Permutation (report failed) failed.
